@@ -144,6 +144,9 @@ type tcase struct {
 func runBatch(cases []tcase, failWriter bool) (*hx.Failure, error) {
 	s := simrt.New(&simrt.Chooser{})
 	s.MaxSteps = 1 << 40
+	if len(cases) > 0 {
+		s.Note(hx.Fingerprint(len(cases), cases[0], cases[len(cases)-1], cases[len(cases)/2], failWriter))
+	}
 	var f *hx.Failure
 	mk := func(tag, format string, args ...interface{}) {
 		if f == nil {
